@@ -17,12 +17,12 @@ func init() { register("C03", checkC03) }
 
 func c03Opts(i int, r *rand.Rand) gen.PipeOpts {
 	o := gen.PipeOpts{
-		Str:        gen.StringOpts{Tricky: true, Interp: true, LeadingWS: i%7 == 0},
-		Unknown:    i%3 != 0,
+		Str:        gen.StringOpts{Tricky: true, Interp: true, LeadingWS: mix(i, 1, 7) == 0},
+		Unknown:    mix(i, 2, 3) != 0,
 		Signature:  true,
-		Sharing:    i%4 == 1,
-		TrickyKeys: i%5 == 0,
-		BigMaps:    i%11 == 0,
+		Sharing:    mix(i, 3, 4) == 1,
+		TrickyKeys: mix(i, 4, 5) == 0,
+		BigMaps:    mix(i, 5, 11) == 0,
 	}.NoSweep()
 	// feature sweeps: small exhaustive sub-products embedded in random documents
 	switch i % 6 {
